@@ -224,4 +224,54 @@ inductive Run (adm : Job → Path → Prop) : State → List Ev → State → Pr
 
 def init (store : List LogE) : State := ⟨restart store, []⟩
 
+-- ------------------------------------------------------------------------------------------------ scheduling points
+
+/-! `Step` lets the requests interleave at every action.  The machines that read a request's `finish` as the release of
+its reservations (`Guard`) or pair a preview's `peekTxid` with its next scheduling point (`Events`) describe runs in
+which a request is only descheduled at a `verifhook.Yield` (the discipline of the harness, and the granularity §3.4
+asks for): `StepY` is `Step` under that discipline — a request that has started a segment runs until its next `yield`
+(or its end); the store, crashes and arrivals act between segments.  Every `RunY` is a `Run`. -/
+
+/-- after this item the request is parked (or over) -/
+def endsSegment : Item → Bool
+  | .act (.yield _) _ _ => true
+  | .fin _ _ => true
+  | _ => false
+
+structure YState where
+  st : State
+  running : Option Nat      -- the request in the middle of a segment
+deriving Repr, Inhabited
+
+inductive StepY (adm : Job → Path → Prop) : YState → List Ev → YState → Prop
+  | item (y : YState) (pre post : List Proc) (j : Job) (rg : Regs) (dn : Path) (x : Item) (rest : Path)
+      (hp : y.st.procs = pre ++ ⟨j, rg, dn, true, x :: rest⟩ :: post) (hen : enabled y.st.sh j rg x = true)
+      (hrun : y.running = none ∨ y.running = some j.a) :
+      StepY adm y (evsOf y.st.sh j rg x)
+        ⟨⟨effSh y.st.sh j rg x, pre ++ ⟨j, effRg y.st.sh j rg x, dn ++ [x], true, rest⟩ :: post⟩,
+         if endsSegment x || rest.isEmpty then none else some j.a⟩
+  | gate (y : YState) (n : Nat) (ok : Bool) (h0 : 0 < n) (hn : n ≤ y.st.sh.queue.length) (hrun : y.running = none) :
+      StepY adm y [.gate n ok] ⟨if ok then ⟨persist y.st.sh n, y.st.procs⟩ else y.st, none⟩
+  | crash (y : YState) :
+      StepY adm y [.crash] ⟨⟨restart y.st.sh.store, y.st.procs.map (fun p => { p with alive := false, todo := [] })⟩, none⟩
+  | arrive (y : YState) (j : Job) (p : Path) (hfresh : ∀ q ∈ y.st.procs, q.job.a ≠ j.a) (hadm : adm j p) :
+      StepY adm y [] ⟨⟨y.st.sh, y.st.procs ++ [⟨j, {}, [], true, p⟩]⟩, y.running⟩
+
+inductive RunY (adm : Job → Path → Prop) : YState → List Ev → YState → Prop
+  | nil (y : YState) : RunY adm y [] y
+  | cons (y y1 y2 : YState) (evs tr : List Ev) : RunY adm y tr y1 → StepY adm y1 evs y2 → RunY adm y (tr ++ evs) y2
+
+theorem StepY.toStep {adm : Job → Path → Prop} {y y' : YState} {evs : List Ev} (h : StepY adm y evs y') :
+    Step adm y.st evs y'.st := by
+  cases h with
+  | item pre post j rg dn x rest hp hen _ => exact Step.item _ pre post j rg dn x rest hp hen
+  | gate n ok h0 hn _ => cases ok <;> exact Step.gate _ n _ h0 hn
+  | crash => exact Step.crash _
+  | arrive j p hf ha => exact Step.arrive _ j p hf ha
+
+theorem RunY.toRun {adm : Job → Path → Prop} {y y' : YState} {tr : List Ev} (h : RunY adm y tr y') : Run adm y.st tr y'.st := by
+  induction h with
+  | nil => exact Run.nil _
+  | cons y1 y2 evs tr _ hs ih => exact Run.cons _ _ _ _ _ ih hs.toStep
+
 end Engine.Skel.Sys
